@@ -295,8 +295,10 @@ def evaluate__substring(self: XPathFunction, context: ta.ContextType = None) -> 
     item: str = self.get_argument(context, default='', cls=str)
     try:
         start = self.get_argument(context, index=1, required=True)
-        if math.isnan(start) or math.isinf(start):
+        if math.isnan(start) or start == math.inf:
             return ''
+        elif start == -math.inf:
+            return item if len(self) == 2 else ''
     except TypeError:
         if isinstance(context, XPathSchemaContext):
             start = 0
